@@ -126,25 +126,30 @@ def processLogoutR (env : Env) (m : Msg) : R Unit := do
   disconnectR env dstate none
 
 /-- the replay loop of `_process_resend`; awaits: `should_replay(row)` for rows that are not
-session-level, and the `drain()` of every gap fill / replay it sends -/
-def resendLoopR (env : Env) (sr : Msg → Bool) : List Msg → Int → Int → R (Int × Int)
+session-level, and the `drain()` of every gap fill / replay it sends.  Rows numbered above the requested
+EndSeqNo go back into the journal unsent, without an await (fix da179c4). -/
+def resendLoopR (env : Env) (sr : Msg → Bool) (endNo : Int) : List Msg → Int → Int → R (Int × Int)
   | [], gfb, gfe => pure (gfb, gfe)
   | row :: rest, gfb, gfe => do
     let v ← R.liftE (row.get tMsgSeqNum)
     let n ← R.int v
-    let ty ← R.liftE (row.get tMsgType)
-    let skip ←
-      if ConnEnum.noReplay.contains ty then pure true
-      else do
-        R.yield .shouldReplay
-        pure (!sr row)
-    if skip then
-      resendLoopR env sr rest gfb (n + 1)
+    if n > endNo then do
+      R.liftM (persistOutboundRow n row)
+      resendLoopR env sr endNo rest gfb gfe
     else do
-      if gfb < n then sendMsgR env (gapFillMsg gfb n) else pure ()
-      let rp ← R.liftE (prepareReplay row)
-      sendMsgR env rp
-      resendLoopR env sr rest (n + 1) gfe
+      let ty ← R.liftE (row.get tMsgType)
+      let skip ←
+        if ConnEnum.noReplay.contains ty then pure true
+        else do
+          R.yield .shouldReplay
+          pure (!sr row)
+      if skip then
+        resendLoopR env sr endNo rest gfb (n + 1)
+      else do
+        if gfb < n then sendMsgR env (gapFillMsg gfb n) else pure ()
+        let rp ← R.liftE (prepareReplay row)
+        sendMsgR env rp
+        resendLoopR env sr endNo rest (n + 1) gfe
 
 /-- `_process_resend`; ghost marks at its two `set_seq_num` calls (`rewind` in the segment of the first
 call, `restore` in the segment of the second) -/
@@ -162,13 +167,14 @@ def processResendR (env : Env) (sr : Msg → Bool) (m : Msg) : R Unit := do
   if b < 1 || b ≥ c.sess.nextOut then
     if c.state != st_RESENDREQ_AWAITING then stateSetR st_ACTIVE else pure ()
   else do
-    let rows := c.journal.recoverOut b e
+    let rows := c.journal.recoverOut b sysMaxsize
     let cur := c.sess.nextOut
     R.ghost .rewind
     R.liftM (setSeqNum (some b) none)
-    let (gfb, gfe) ← resendLoopR env sr rows b b
+    let (gfb, gfe) ← resendLoopR env sr e rows b b
     R.assert (decide (gfe ≤ cur))
-    if gfb < cur then sendMsgR env (gapFillMsg gfb cur) else pure ()
+    let gfe2 := min (e + 1) cur
+    if gfb < gfe2 then sendMsgR env (gapFillMsg gfb gfe2) else pure ()
     R.liftM (setSeqNum (some cur) none)
     R.ghost .restore
     let c2 ← R.get
